@@ -451,11 +451,14 @@ func (c *Ctx) NoReadAhead() []core.Ob {
 		o := core.Ob{Rule: "R-NOBUF", Key: "nbt.NewDecoder:byte-adapter", Pos: c.P.Pos(nd.Pos()), Func: "nbt.NewDecoder", Armed: true, Status: core.OK,
 			Want: "a reader without ReadByte is wrapped in a one-byte-at-a-time adapter declared in package nbt (never in a buffering reader)"}
 		okAdapter := false
-		for _, b := range nd.Blocks {
-			for _, in := range b.Instrs {
-				if mi, ok := in.(*ssa.MakeInterface); ok {
-					if n, ok := types.Unalias(mi.X.Type()).(*types.Named); ok && n.Obj().Pkg() != nil && n.Obj().Pkg().Path() == nbtPath {
-						okAdapter = true
+		// in NewDecoder itself or in a helper of the package it delegates the wrapping to
+		for _, g := range c.withPkgCallees(nd, 2) {
+			for _, b := range g.Blocks {
+				for _, in := range b.Instrs {
+					if mi, ok := in.(*ssa.MakeInterface); ok {
+						if n, ok := types.Unalias(mi.X.Type()).(*types.Named); ok && n.Obj().Pkg() != nil && n.Obj().Pkg().Path() == nbtPath {
+							okAdapter = true
+						}
 					}
 				}
 			}
